@@ -268,6 +268,17 @@ class BuildError(Exception):
     pass
 
 
+def regen_errno(ctx):
+    """regenerate coq/gen/ErrnoTable.v from /repo/src/errno_status.c (tools/translate_errno.py); on refusal the stale
+    table is removed so that no theorem is re-checked against old code"""
+    r = subprocess.run([sys.executable, os.path.join(VERIF, "tools", "translate_errno.py")], capture_output=True, text=True)
+    if r.returncode != 0:
+        ctx.broken.append("translator:" + r.stderr.strip()[:300])
+        p = os.path.join(COQ, "gen", "ErrnoTable.v")
+        if os.path.exists(p):
+            os.remove(p)
+
+
 TRUSTED_BASE = [
     "Coq 8.16.1 kernel incl. vm_compute (no native_compute)",
     "extraction to OCaml with ExtrOcamlBasic directives only (bool/option/unit/prod/list/sumbool/sumor mapped to OCaml types; andb/orb/negb/fst/snd inlined); Z/N/nat/positive stay extracted inductives",
@@ -414,6 +425,13 @@ def standard_check(ctx, plug):
     ctx.log("proof step")
     regen = (lambda: plug.REGEN(ctx)) if hasattr(plug, "REGEN") else None
     pr = ctx.proof_step(getattr(plug, "PROPS", None), regen=regen)
+    for mod in getattr(plug, "EXTRA_PROPS", []):      # further property files re-checked by this check
+        extra = ctx.proof_step(mod, regen=regen)
+        pr = {"file": pr["file"] + " + " + extra["file"], "theorems": pr["theorems"] + extra["theorems"],
+              "obligations": pr["obligations"] + extra["obligations"], "discharged": pr["discharged"] + extra["discharged"],
+              "ok": pr["ok"] and extra["ok"], "axioms": sorted(set(pr["axioms"] + extra["axioms"])),
+              "log": pr["log"] + extra["log"]}
+        ctx.proof = pr
     ctx.log("proof: %d/%d theorems, ok=%s" % (pr["discharged"], pr["obligations"], pr["ok"]))
     try:
         plug.build(ctx)
